@@ -1,9 +1,12 @@
 #!/bin/bash
-# seed_all.sh: every seeded change against the check of its own property; one line per seed
-# into /verif/seeded/RESULTS.txt (developer tool, not a registered command)
+# seed_all.sh: every seeded change (all rounds) against the check of its own property; one line
+# per seed into /verif/seeded/RESULTS.txt (developer tool, not a registered command).
+# A seed whose patch no longer applies (e.g. a later fix: commit touched the same lines) is reported.
 out=/verif/seeded/RESULTS.txt; : > $out
-for id in C01 C02 C03 C04 C05 C06 C07 C08 C09 C10 C11 C12 C13 C14 C15 C16 C17 C18 C19 C20; do
-  r=$(/verif/seed_test.sh $id $id 2>&1)
+for d in /verif/seeded/C*/; do
+  id=$(basename $d); prop=${id:0:3}
+  if ! git -C /repo apply --check $d/patch.diff 2>/dev/null; then echo "$id patch-does-not-apply" >> $out; continue; fi
+  r=$(/verif/seed_test.sh $id $prop 2>&1)
   rc=$(echo "$r" | grep -o "exit=[0-9]*" | head -1)
   sig=$(echo "$r" | grep "^# " | head -2 | cut -c1-160 | tr '\n' '|')
   echo "$id $rc $sig" >> $out
